@@ -142,7 +142,9 @@ theorem evalX_ctx (E : Env) : ∀ (apply : Bool) (e : Expr) {st r st'},
     simp only [evalX] at h
     split at h
     · cases h; rfl
-    · split at h <;> (cases h; rfl)
+    · split at h
+      · cases h; rfl
+      · split at h <;> (cases h; rfl)
   | _, .unary op e, st, r, st', h => by
     simp only [evalX] at h
     obtain ⟨⟨⟨v, _⟩, st1⟩, h1, h⟩ := bind_ok h
@@ -270,7 +272,9 @@ theorem evalX_ctx (E : Env) : ∀ (apply : Bool) (e : Expr) {st r st'},
         have i1 : st1.ctx = st.ctx := by
           split at h1
           · cases h1; rfl
-          · split at h1 <;> (cases h1; rfl)
+          · split at h1
+            · cases h1; rfl
+            · split at h1 <;> (cases h1; rfl)
         obtain ⟨⟨av, st2⟩, h3, h⟩ := bind_ok h
         exact tail ((evalArgs_ctx E args h3).trans i1) h
     all_goals
@@ -427,28 +431,121 @@ theorem renderNode_for (E go tpl key val seq body els st) :
 
 theorem Ctx.getMacro_setVar (c : Ctx) (k v x) : (c.setVar k v).getMacro x = c.getMacro x := rfl
 
+/-- What the expression `.var n` reads (`EvaluateExpression` on a `VariableNode`): a variable bound
+    anywhere in the context chain (possibly to null) wins; then an engine global; then a visible macro
+    of that name (as a macro value); otherwise nil. -/
+def readVar (E : Env) (c : Ctx) (n : Bytes) : Val :=
+  if c.hasVar n then c.getVar n
+  else match getKV n E.globals with
+    | some g => g
+    | none => match c.getMacro n with
+      | some (t, m) => .macro t m
+      | none => c.getVar n
+
+/-- **Variable evaluation, all cases**: `.var n` never fails, never changes the state, has no pending
+    filter chain, and its value is `readVar`. -/
+theorem evalX_var (E : Env) (ap : Bool) (n : Bytes) (st : St) :
+    evalX E ap (.var n) st = .ok ((readVar E st.ctx n, []), st) := by
+  simp only [evalX, readVar]
+  split
+  · rfl
+  · cases getKV n E.globals with
+    | some g => rfl
+    | none =>
+      cases st.ctx.getMacro n with
+      | some tm => rfl
+      | none => rfl
+
+theorem evalExpr_var_eq (E : Env) (n : Bytes) (st : St) :
+    evalExpr E (.var n) st = .ok (readVar E st.ctx n, st) := by
+  simp only [evalExpr, evalX_var]; rfl
+
+theorem readVar_of_hasVar {E : Env} {c : Ctx} {n : Bytes} (h : c.hasVar n = true) :
+    readVar E c n = c.getVar n := by
+  simp only [readVar, h, if_true]
+
+theorem readVar_of_global {E : Env} {c : Ctx} {n : Bytes} {g : Val} (h : c.hasVar n = false)
+    (hg : getKV n E.globals = some g) : readVar E c n = g := by
+  simp only [readVar, h, hg, Bool.false_eq_true, if_false]
+
+theorem readVar_of_none {E : Env} {c : Ctx} {n : Bytes} (hg : getKV n E.globals = none)
+    (hm : c.getMacro n = none) : readVar E c n = c.getVar n := by
+  simp only [readVar, hg, hm]; split <;> rfl
+
 /-- reading a variable / an attribute of a variable: a variable that is defined (own map or parent
-    chain) shadows a macro of the same name; an undefined name reads as a macro if there is one -/
-theorem evalExpr_var {E : Env} {x : Bytes} {st : St} (h : st.ctx.hasVar x = true ∨ st.ctx.getMacro x = none) :
+    chain) shadows a global and a macro of the same name; a name that is neither a global nor a macro
+    reads through `getVar` (nil).  The global case is `evalExpr_var_global`; all cases at once:
+    `evalExpr_var_eq`. -/
+theorem evalExpr_var {E : Env} {x : Bytes} {st : St}
+    (h : st.ctx.hasVar x = true ∨ (getKV x E.globals = none ∧ st.ctx.getMacro x = none)) :
     evalExpr E (.var x) st = .ok (st.ctx.getVar x, st) := by
-  simp only [evalExpr, evalX]
-  rcases h with h | h
-  · simp only [h, if_true]; rfl
-  · split
-    · rfl
-    · simp only [h]; rfl
+  rw [evalExpr_var_eq]
+  rcases h with h | ⟨hg, hm⟩
+  · rw [readVar_of_hasVar h]
+  · rw [readVar_of_none hg hm]
+
+theorem evalExpr_var_global {E : Env} {x : Bytes} {st : St} {g : Val}
+    (h : st.ctx.hasVar x = false) (hg : getKV x E.globals = some g) :
+    evalExpr E (.var x) st = .ok (g, st) := by
+  rw [evalExpr_var_eq, readVar_of_global h hg]
+
+theorem evalExpr_var_attr_eq (E : Env) (x a : Bytes) (st : St) :
+    evalExpr E (.attr (.var x) a) st = .ok (getAttr (readVar E st.ctx x) a, st) := by
+  have h : evalX E true (.attr (.var x) a) st =
+      (evalX E true (.var x) st >>= fun p => pure ((getAttr p.1.1 a, []), p.2)) := by
+    simp only [evalX]
+  simp only [evalExpr, h, evalX_var, ok_bind, pure_eq_ok]
 
 theorem evalExpr_var_attr {E : Env} {x a : Bytes} {st : St}
-    (h : st.ctx.hasVar x = true ∨ st.ctx.getMacro x = none) :
+    (h : st.ctx.hasVar x = true ∨ (getKV x E.globals = none ∧ st.ctx.getMacro x = none)) :
     evalExpr E (.attr (.var x) a) st = .ok (getAttr (st.ctx.getVar x) a, st) := by
-  simp only [evalExpr, evalX]
-  rcases h with h | h
-  · simp only [h, if_true]; rfl
-  · split
-    · rfl
-    · simp only [h]; rfl
+  rw [evalExpr_var_attr_eq]
+  rcases h with h | ⟨hg, hm⟩
+  · rw [readVar_of_hasVar h]
+  · rw [readVar_of_none hg hm]
 
 theorem Ctx.hasVar_setVar_same (c : Ctx) (k : Bytes) (v : Val) : (c.setVar k v).hasVar k = true := by
   simp [Ctx.hasVar, Ctx.setVar, getKV_setKV_same]
+
+/-- `hasVar`, spelled out: some scope of the chain (the own map or a parent's) has an entry for the
+    name — whatever the entry's value is, null included -/
+theorem Ctx.hasVar_iff (c : Ctx) (k : Bytes) :
+    c.hasVar k = true ↔
+      (getKV k c.vars).isSome = true ∨ ∃ s ∈ c.parents, (getKV k s.vars).isSome = true := by
+  simp only [Ctx.hasVar, Bool.or_eq_true, List.any_eq_true]
+
+theorem scopesVar_of_unbound (k : Bytes) : ∀ (ps : List Scope),
+    ps.any (fun s => (getKV k s.vars).isSome) = false → scopesVar k ps = .null
+  | [], _ => rfl
+  | s :: r, h => by
+    simp only [List.any_cons, Bool.or_eq_false_iff] at h
+    simp only [scopesVar]
+    cases hs : getKV k s.vars with
+    | some v => rw [hs] at h; cases h.1
+    | none => exact scopesVar_of_unbound k r h.2
+
+/-- a name no scope binds reads as null through `getVar` -/
+theorem Ctx.getVar_of_not_hasVar {c : Ctx} {k : Bytes} (h : c.hasVar k = false) : c.getVar k = .null := by
+  simp only [Ctx.hasVar, Bool.or_eq_false_iff] at h
+  simp only [Ctx.getVar]
+  cases hs : getKV k c.vars with
+  | some v => rw [hs] at h; cases h.1
+  | none => exact scopesVar_of_unbound k c.parents h.2
+
+/-- **`x is defined`, all cases**: true iff some scope of the chain binds `x` (to anything, null
+    included) or an engine global `x` exists; never an error, no state change, the arguments are not
+    evaluated. -/
+theorem evalX_defined_var (E : Env) (ap : Bool) (n : Bytes) (args : List Expr) (st : St) :
+    evalX E ap (.test (.var n) (b "defined") args) st =
+      .ok ((.bool (st.ctx.hasVar n || (getKV n E.globals).isSome), []), st) := by
+  simp only [evalX, beq_self_eq_true, if_true]
+  cases hv : st.ctx.hasVar n with
+  | true => rfl
+  | false =>
+    cases hg : getKV n E.globals with
+    | some g => rfl
+    | none =>
+      simp only [Option.isSome_none, Bool.or_false, Bool.false_eq_true, if_false,
+        Ctx.getVar_of_not_hasVar hv, pure_eq_ok]
 
 end Twig
